@@ -143,7 +143,7 @@ FINDINGS = {'KF-CHORDREST': f_chordrest}
 
 def run(ctx):
     n = 220 if ctx.quick else 2200
-    ctx.run_hypothesis(doc_pairs(D.profile('full', chord_optional_dur=True)), check, max_examples=n, label='full')
+    ctx.run_hypothesis(doc_pairs(D.profile('full', chord_optional_dur=True, hidden_bars=True)), check, max_examples=n, label='full')
     ctx.run_hypothesis(doc_pairs(D.profile('chordrest', kern_weight=6)), check, max_examples=max(40, n // 6), salt=1,
                        label='chordrest')
     # multi-character signifier units (elided slurs, editorial marks, footnotes, staff changes on slurs/beams): outside
